@@ -489,7 +489,8 @@ impl Case {
             // and every handed-out acknowledgement queued so far has been answered
             let deadline = std::time::Instant::now() + Duration::from_secs(5);
             while std::time::Instant::now() < deadline {
-                if self.blocked_clients() > 0 { break; }
+                // (also while other callers are parked: they hold no acknowledgement yet, and the draining worker answers
+                // everything that reaches the queue - under load it may take a moment)
                 if self.acks.iter().all(|a| poll_ack(a).is_some()) { break; }
                 thread::sleep(Duration::from_micros(200));
             }
